@@ -199,6 +199,7 @@ struct Snap {
     wl: Option<u64>,
     left: Option<u64>,
     price: (u64, u128),
+    limit: u64,
 }
 #[derive(Clone, Debug)]
 struct MonRec {
@@ -291,6 +292,13 @@ impl S {
         if let Ok(n) = self.w.query(m, &json!({"mintable_num_tokens":{}})) {
             s.left = n["count"].as_u64();
         }
+        // the effective public price: a standing discount replaces the configured price (vending family)
+        if let Ok(v) = self.w.query(m, &json!({"mint_price":{}})) {
+            if let Some(a) = v["discount_price"]["amount"].as_str().and_then(|x| x.parse::<u128>().ok()) {
+                s.price.1 = a;
+            }
+        }
+        s.limit = c["per_address_limit"].as_u64().unwrap_or(0);
         s
     }
     fn obs(s: &Snap) -> String {
@@ -579,6 +587,41 @@ impl Sut for S {
                 }
                 return (line.to_string(), "ok".into());
             }
+            "menv" => {
+                // any other minter message; the model only learns what can be observed afterwards
+                let Some(m) = self.minter.clone() else { return ("noop".into(), "env".into()) };
+                let pre = self.snap();
+                let what = kv(line, "what").unwrap_or("");
+                let arg = kv_u128(line, "arg").unwrap_or(0);
+                let who = addr(kv_u64(line, "sender").unwrap_or(ADMIN));
+                let mut purged = false;
+                let r = match what {
+                    "upd_price" => self.w.exec(&who, &m, &json!({"update_mint_price": {"price": arg.to_string()}}), &[]),
+                    "upd_limit" => self.w.exec(&who, &m, &json!({"update_per_address_limit": {"per_address_limit": arg as u64}}), &[]),
+                    "purge" => {
+                        let r = self.w.exec(&who, &m, &json!({"purge": {}}), &[]);
+                        purged = r.is_ok();
+                        r
+                    }
+                    "shuffle" => {
+                        self.w.fund(&who, 0, 500_000_000);
+                        self.w.exec(&who, &m, &json!({"shuffle": {}}), &[(0, 500_000_000)])
+                    }
+                    "burn" => self.w.exec(&who, &m, &json!({"burn_remaining": {}}), &[]),
+                    "trading" => self.w.exec(&who, &m, &json!({"update_start_trading_time": (arg as u64).to_string()}), &[]),
+                    "discount" => self.w.exec(&who, &m, &json!({"update_discount_price": {"price": arg.to_string()}}), &[]),
+                    "rm_discount" => self.w.exec(&who, &m, &json!({"remove_discount_price": {}}), &[]),
+                    _ => self.w.sudo(&m, &json!({"update_status": {"is_verified": arg % 2 == 1, "is_blocked": arg % 4 >= 2, "is_explicit": arg % 8 >= 4}})),
+                };
+                let ok = r.is_ok();
+                let post = self.snap();
+                self.last = Some(MonRec { line: line.to_string(), op: "menv".into(), ok, pre, post: post.clone(), sender: 0, leaf: (None, 0, None), proof_presented: false, charged: [0, 0], new_t: 0 });
+                let pw = purged && self.kind.is_flex();
+                return (
+                    format!("menv price={} limit={} left={} pp={} pw={}", post.price.1, post.limit, fmt_opt(&post.left), purged as u8, pw as u8),
+                    format!("env {}", S::obs(&post)),
+                );
+            }
             "price" => {
                 let Some(m) = &self.minter else { return (line.to_string(), "err".into()) };
                 return match self.w.query(m, &json!({"mint_price":{}})) {
@@ -744,6 +787,39 @@ impl Sut for S {
             if let Some(e) = r.post.end {
                 if now >= e && self.frozen_end.is_none() {
                     self.frozen_end = Some(e);
+                }
+            }
+        }
+        // whatever the message was (also the ones this property does not name): a change of the schedule or of the
+        // attached whitelist must obey the rules
+        if r.pre.exists && r.post.exists {
+            if r.post.start != r.pre.start {
+                if now >= r.pre.start {
+                    return bad(&r.op, "start-updated-after-start", format!("start {} had passed at {now}, now {}", r.pre.start, r.post.start));
+                }
+                if r.post.start < now {
+                    return bad(&r.op, "start-moved-into-the-past", format!("new start {} < now {now}", r.post.start));
+                }
+            }
+            if r.post.end != r.pre.end {
+                match r.pre.end {
+                    Some(e) if now < e => {}
+                    _ => return bad(&r.op, "end-updated-after-end", format!("end {:?} had passed (or was never set) at {now}, now {:?}", r.pre.end, r.post.end)),
+                }
+                match r.post.end {
+                    Some(n) if n >= r.post.start => {}
+                    _ => return bad(&r.op, "end-before-start", format!("new end {:?} vs start {}", r.post.end, r.post.start)),
+                }
+            }
+            if r.post.wl != r.pre.wl {
+                if now >= r.pre.start {
+                    return bad(&r.op, "whitelist-attached-after-start", format!("start {} had passed at {now}", r.pre.start));
+                }
+                if r.pre.wl.and_then(|k| self.wls.get(&k)).and_then(|i| i.active_stage(now)).is_some() {
+                    return bad(&r.op, "whitelist-replaced-while-active", format!("current whitelist {:?} is active at {now}", r.pre.wl));
+                }
+                if r.post.wl.and_then(|k| self.wls.get(&k)).and_then(|i| i.active_stage(now)).is_some() {
+                    return bad(&r.op, "active-whitelist-attached", format!("new whitelist {:?} is active at {now}", r.post.wl));
                 }
             }
         }
@@ -1197,7 +1273,24 @@ fn sweep_case(ses: &mut Session, sut: &mut S, g: &mut Gen, v: usize, wk: WlKind,
                 do_step(ses, sut, &format!("set_wl sender={ADMIN} wl={back}"));
             }
         }
+        // the rest of the message surface must leave the schedule alone
+        if g.rng.chance(1, 4) {
+            let (what, arg): (&str, u128) = match g.rng.below(6) {
+                0 => ("upd_price", 99_000_000),
+                1 => ("upd_limit", 1 + g.rng.below(3) as u128),
+                2 => ("status", g.rng.below(8) as u128),
+                3 => ("discount", 80_000_000),
+                4 => ("rm_discount", 0),
+                _ => ("trading", (p + 100) as u128),
+            };
+            do_step(ses, sut, &format!("menv what={what} arg={arg} sender={ADMIN}"));
+        }
     }
+    // everything is over: purge (anyone may), shuffle, burn the rest — still no schedule change
+    for what in ["purge", "shuffle", "burn", "purge"] {
+        do_step(ses, sut, &format!("menv what={what} arg=0 sender={}", if what == "purge" { 25 } else { ADMIN }));
+    }
+    battery(ses, sut, g, false);
     ses.end_case();
 }
 
@@ -1271,7 +1364,7 @@ fn random_case(ses: &mut Session, sut: &mut S, g: &mut Gen, v: usize, steps: u64
         let snap = sut.snap();
         let now = snap.now;
         let inst = interesting_instants(sut);
-        match g.rng.below(12) {
+        match g.rng.below(14) {
             0 | 1 | 2 => {
                 // clock: next boundary-ish instant, or a jump
                 let mut cands: Vec<u64> = inst.iter().flat_map(|t| [t.saturating_sub(1), *t, t + 1]).filter(|t| *t > now).collect();
@@ -1345,6 +1438,23 @@ fn random_case(ses: &mut Session, sut: &mut S, g: &mut Gen, v: usize, steps: u64
                         }
                     }
                 }
+            }
+            11 => {
+                // any other minter message (environment for this property; must not move the schedule)
+                let (what, arg): (&str, u128) = match g.rng.below(12) {
+                    0 | 1 => ("upd_price", *g.rng.pick(&[50_000_000u128, 70_000_000, 100_000_001, 49_999_999, 150_000_000])),
+                    2 => ("upd_limit", 1 + g.rng.below(4) as u128),
+                    3 => ("purge", 0),
+                    4 => ("shuffle", 0),
+                    5 => ("trading", (now + g.rng.below(5000)) as u128),
+                    6 | 7 => ("discount", *g.rng.pick(&[55_000_000u128, 90_000_000, 50_000_000])),
+                    8 => ("rm_discount", 0),
+                    9 => ("status", g.rng.below(8) as u128),
+                    10 => if g.rng.chance(1, 4) { ("burn", 0) } else { ("upd_limit", 2) },
+                    _ => ("upd_price", snap.price.1.saturating_sub(1)),
+                };
+                let who = if g.rng.chance(1, 10) { 24 } else { ADMIN };
+                do_step(ses, sut, &format!("menv what={what} arg={arg} sender={who}"));
             }
             _ => {
                 // a burst of mints by one buyer (runs into the per-address limits)
